@@ -20,7 +20,9 @@ N6(a, b) == <<a, b>> \o Z12 \o <<0, 0>>     \* a:b:: with a, b the first two byt
 
 AddrAtoms == {
   Ip("sip", "=", V4A), Ip("sip", "!=", V4A), Ip("sip", "=", V6P), Ip("sip", "!=", V6P),
-  Ip("dip", "=", V4B), Ip("dip", "!=", V4B), Ip("dip", "=", V6Q), Ip("dip", "!=", V6Q) }
+  Ip("dip", "=", V4B), Ip("dip", "!=", V4B), Ip("dip", "=", V6Q), Ip("dip", "!=", V6Q),
+  \* the IPv4-mapped IPv6 address ::ffff:10.0.0.1 (written with a dotted quad): an IPv6 address, not 10.0.0.1
+  Ip("sip", "=", V6X), Ip("sip", "!=", V6X) }
 
 SnetAtoms == {
   Net("snet", "=", N4(10, 0, 0, 0), 8),    Net("snet", "!=", N4(10, 0, 0, 0), 8),
@@ -38,7 +40,8 @@ SnetAtoms == {
   Net("snet", "=", N6(32, 1), 65),
   Net("snet", "=", V6P, 128),
   Net("snet", "=", N6(0, 0), 127),
-  Net("snet", "=", N6(0, 0), 0) }
+  Net("snet", "=", N6(0, 0), 0),
+  Net("snet", "=", V6X, 128), Net("snet", "=", V6X, 100), Net("snet", "!=", V6X, 96) }
 
 DnetAtoms == {
   Net("dnet", "=", N4(10, 0, 0, 0), 8),
